@@ -795,6 +795,11 @@ func guardRange(f func() IR) string {
 	return hlib.Guard(func() string { return "ok " + showR(f()) })
 }
 
+// guardRangeP also prints where the result pointers come from (relative to the operands x, y).
+func guardRangeP(x, y IR, f func() IR) string {
+	return hlib.Guard(func() string { z := f(); return "ok " + showR(z) + " " + provR(z, x, y) })
+}
+
 func evalInternal(c *item) *result {
 	res := &result{line: c.line()}
 	x, y := cpR(c.x), cpR(c.y)
@@ -824,23 +829,24 @@ func evalInternal(c *item) *result {
 	case "split2":
 		res.out = hlib.Guard(func() string {
 			a, b, p, q := interval.VerifSplit2Ways(x)
-			return fmt.Sprintf("s %s %s %v %v", showR(a), showR(b), p, q)
+			return fmt.Sprintf("s %s %s %v %v %s %s", showR(a), showR(b), p, q, provR(a, x, IR{}), provR(b, x, IR{}))
 		})
 	case "split3":
 		res.out = hlib.Guard(func() string {
 			a, b, p, q, s := interval.VerifSplit3Ways(x)
-			return fmt.Sprintf("s %s %s %v %v %v", showR(a), showR(b), p, q, s)
+			return fmt.Sprintf("s %s %s %v %v %v %s %s", showR(a), showR(b), p, q, s, provR(a, x, IR{}), provR(b, x, IR{}))
 		})
 	case "abnn":
-		res.out = guardRange(func() IR { return interval.VerifAndBothNonNeg(x, y) })
+		res.out = guardRangeP(x, y, func() IR { return interval.VerifAndBothNonNeg(x, y) })
 	case "obnn":
-		res.out = guardRange(func() IR { return interval.VerifOrBothNonNeg(x, y) })
+		res.out = guardRangeP(x, y, func() IR { return interval.VerifOrBothNonNeg(x, y) })
 	case "aonn":
-		res.out = guardRange(func() IR { return interval.VerifAndOneNegOneNonNeg(x, y) })
+		res.out = guardRangeP(x, y, func() IR { return interval.VerifAndOneNegOneNonNeg(x, y) })
 	case "oonn":
-		res.out = guardRange(func() IR { return interval.VerifOrOneNegOneNonNeg(x, y) })
+		res.out = guardRangeP(x, y, func() IR { return interval.VerifOrOneNegOneNonNeg(x, y) })
 	case "ipu":
-		res.out = guardRange(func() IR { interval.VerifInPlaceUnite(&x, y); return x })
+		x0 := x // the receiver's pointers before the call
+		res.out = guardRangeP(x0, y, func() IR { interval.VerifInPlaceUnite(&x, y); return x })
 	default:
 		evalHelper(c, res, x, y)
 	}
@@ -850,6 +856,29 @@ func evalInternal(c *item) *result {
 	res.count("op:" + c.kind)
 	return res
 }
+
+// provTag names where a result pointer comes from: "-" nil, "x0".."y1" an operand pointer,
+// "one" / "minusOne" / "mask<n>" a package-level object, "f" anything else (a new object).
+func provTag(p *big.Int, x, y IR) string {
+	switch {
+	case p == nil:
+		return "-"
+	case p == x[0]:
+		return "x0"
+	case p == x[1]:
+		return "x1"
+	case p == y[0]:
+		return "y0"
+	case p == y[1]:
+		return "y1"
+	}
+	if s := interval.VerifSharedName(p); s != "" {
+		return s
+	}
+	return "f"
+}
+
+func provR(z, x, y IR) string { return provTag(z[0], x, y) + " " + provTag(z[1], x, y) }
 
 // freshScalar checks that a helper's *big.Int result is a new allocation: not an argument, not a
 // package-level value, and not sharing word storage with an argument.
@@ -1041,7 +1070,7 @@ func evalHelper(c *item, res *result, x, y IR) {
 			return showBIP(p)
 		})
 	case "mullsh":
-		res.out = guardRange(func() IR { return interval.VerifMulLsh(x, y, c.op == "1") })
+		res.out = guardRangeP(x, y, func() IR { return interval.VerifMulLsh(x, y, c.op == "1") })
 	default:
 		panic("bad kind " + c.kind)
 	}
@@ -1075,7 +1104,7 @@ func eval(c *item) *result {
 		if !ok {
 			return "fail"
 		}
-		return "ok " + showR(z)
+		return "ok " + showR(z) + " " + provR(z, px, py)
 	})
 	res.out = out
 	res.count("op:" + op)
@@ -1809,6 +1838,16 @@ func main() {
 			{cp(b), nil},
 			{nil, cp(b)},
 		}
+		if b.BitLen() > 2 {
+			// zero-anchored and sign-straddling
+			ab := new(big.Int).Abs(b)
+			if b.Sign() > 0 {
+				shapes = append(shapes, IR{bi(0), cp(b)}, IR{bi(1), cp(b)})
+			} else {
+				shapes = append(shapes, IR{cp(b), bi(0)}, IR{cp(b), bi(-1)})
+			}
+			shapes = append(shapes, IR{new(big.Int).Neg(ab), ab})
+		}
 		for _, x := range shapes {
 			for _, op := range ops {
 				ys := smallY
@@ -2002,7 +2041,7 @@ func main() {
 		"random: magnitudes around 2^k±2 up to k=135, sign-straddling, half-infinite; bit patterns: prefix-sharing / adjacent / touching / " +
 		"complementary non-negative ranges (1..131 bits) through andMax/orMax and through And/Or plain, complemented and straddling; " +
 		"half-infinite and/or; shifts: every count 0..200, 2^32 threshold with x=[0,0]/empty only; " +
-		"machine-word boundaries: bounds ±2^k+{-2..2} for k in 7,8,15,16,31,32,62,63,64,65,127,128 (7 range shapes each) against small " +
+		"machine-word boundaries: bounds ±2^k+{-2..2} for k in 7,8,15,16,31,32,62,63,64,65,127,128 (7-10 range shapes each, incl. zero-anchored and sign-straddling) against small " +
 		"divisors/factors/shift counts (-1,0,1,..) through all 10 ops, and boundary against boundary; every unexported helper directly " +
 		"(bigIntQuo/Mul/Lsh/Rsh/NewSet/NewNot, bitMask 0..140, biggerIntPair ops, predicates, String, justZero, mulLsh incl. negative counts). " +
 		"non-trivial = both operands non-empty; distinct = distinct op line")
